@@ -3,6 +3,7 @@ mod plangen;
 mod oracles;
 mod props;
 mod runner;
+mod storemodel;
 mod world;
 
 fn main() {
@@ -25,6 +26,9 @@ fn main() {
         "C02" => props::c02::main(&args),
         "C07" => props::c07::main(&args),
         "C08" => props::c08::main(&args),
+        "C09" => props::store::main(&args, props::store::Focus::Rollback),
+        "C10" => props::store::main(&args, props::store::Focus::Differential),
+        "C18" => props::c18::main(&args),
         other => {
             eprintln!("unknown property {other}");
             2
